@@ -548,6 +548,17 @@ pub fn reopen<A: VArena>(cfg: &Cfg, mode: OpenMode, cap: Option<u32>, create_fla
                 None => unsafe { o.map_copy::<A, _>(p) },
             }
         }
+        OpenMode::Map | OpenMode::MapCopyRo if create_flag => {
+            // read-only opens are documented to ignore the creation / write flags of the options they are given
+            // (e.g. the very options the file was created with)
+            o = o.with_create(true).with_create_new(true).with_write(true);
+            match (mode, pb) {
+                (OpenMode::Map, Some(pb)) => flat(unsafe { o.map_with_path_builder::<A, _, std::io::Error>(move || Ok(pb)) }),
+                (OpenMode::Map, None) => unsafe { o.map::<A, _>(p) },
+                (_, Some(pb)) => flat(unsafe { o.map_copy_read_only_with_path_builder::<A, _, std::io::Error>(move || Ok(pb)) }),
+                (_, None) => unsafe { o.map_copy_read_only::<A, _>(p) },
+            }
+        }
         OpenMode::Map => match pb {
             Some(pb) => flat(unsafe { o.map_with_path_builder::<A, _, std::io::Error>(move || Ok(pb)) }),
             None => unsafe { o.map::<A, _>(p) },
